@@ -31,6 +31,8 @@ def classify(b, has_nested):
     if ids[0].startswith('FUSION-') and any(x.startswith('2-') for x in ids) \
             and (b.get('fusion_donor_fs') or any(_frameshift_id(x[2:]) for x in ids if x.startswith('1-'))):
         return 'KF-FUSION-ACCEPTOR-VAR'     # entry names an acceptor-side record and the donor part carries a frameshifting record
+    if b.get('circ_lapmix'):
+        return 'KF-CIRC-LAP-MIX'        # the peptide needs the named records in one lap of the circle and not in another
     if b.get('boundary_only') and not (rep and rep['drop'] and not rep['add']):
         # the sequence IS present in a protein of exactly the named haplotype; only its ends are not cleavage sites there, i.e. a
         # cleavage-creating record is missing from the label. No recorded label finding has this shape (0 of 259 upstream
